@@ -1,3 +1,7 @@
+// The library's go.mod says go 1.22: in a program whose main module says the same, timer channels are still buffered and Reset/Stop do
+// not discard a tick that has fired (GODEBUG asynctimerchan=1). This module says go 1.23, so the check asks for the library's own setting.
+//
+//go:debug asynctimerchan=1
 package c08
 
 import (
@@ -404,12 +408,18 @@ func judge(c faultCase, p prep, o cli.Outcome) harness.Result {
 		if !errors.Is(o.Err, context.Canceled) {
 			return harness.Fail(desc+"cancellation not reported as the context's error: %T %v", o.Err, o.Err)
 		}
+		if isCE {
+			return harness.Fail(desc+"cancellation reported as the retryable client error (%T wrapping %v) instead of the context's error: a caller that retries client errors would retry a call it has cancelled", o.Err, ce.Err)
+		}
 		if o.Elapsed > 1500*time.Millisecond {
 			return harness.Fail(desc+"cancelled call took %v", o.Elapsed)
 		}
 	case "deadline-before", "deadline-in-stall":
 		if !errors.Is(o.Err, context.DeadlineExceeded) {
 			return harness.Fail(desc+"expiry of the caller's context deadline not reported as the context's error: %T %v", o.Err, o.Err)
+		}
+		if isCE {
+			return harness.Fail(desc+"expiry of the caller's context deadline reported as the retryable client error (%T wrapping %v) instead of the context's error", o.Err, ce.Err)
 		}
 		if o.Elapsed > 2500*time.Millisecond {
 			return harness.Fail(desc+"call with an expired context deadline took %v", o.Elapsed)
